@@ -20,6 +20,7 @@ ASSUMPTIONS = ["X1 memory orders", "keys are never freed while values exist (doc
 RULES_DOC = dict(common.SHARED_DOC)
 RULES_DOC["X4"] = common.X4_DOC
 RULES_DOC["R5"] = "key identities are disjoint: statically initialised (internal) keys have distinct ids below the first dynamic id, and ABT_key_create hands out ids from a counter that starts above them (a user key never aliases the migration / stackable-scheduler key)"
+RULES_DOC["R6"] = "the key-table size cannot be configured to 0: the lower bound of the KEY_TABLE_SIZE loader is at least 1 (a table of zero slots is indexed with id & (0 - 1))"
 RULES_DOC.update({
     "R1": "element initialised before its release-store link; acquire-load traversal; table pointer published by release store / reset on failure",
     "R2": "append only after a second scan of the chain under the table lock (thread-safe variant); lock released on every exit",
@@ -342,6 +343,17 @@ def rule_R5(P, rep):
            "first dynamic id %s, internal ids %s" % (first, sorted(vals)), loc="src/key.c", site="key-ids/dynamic-start")
 
 
+def rule_R6(P, rep):
+    E = "src/arch/abtd_env.c"
+    F = P.fn("ABTD_env_key_table_size", E)
+    calls = [i for _b, i in F.calls() if (F.nodes[i].get("fn") or "").startswith("load_env_")]
+    rep.need(len(calls) == 1, "ABTD_env_key_table_size: %d loader calls" % len(calls))
+    nd = F.nodes[calls[0]]
+    lo = F.nodes[F.strip(nd["a"][2])].get("cv")
+    rep.ob("R6", "KEY_TABLE_SIZE is loaded with a lower bound of at least 1", lo is not None and lo >= 1, "lower bound %s" % lo,
+           loc=F.loc(calls[0]), site="key_table_size/lower-bound")
+
+
 def run(P, rep, tier):
     common.rule_X4(P, rep)
     common.run_shared(P, rep, which=("X1", "X2"))
@@ -349,3 +361,4 @@ def run(P, rep, tier):
     rule_R3(P, rep)
     rule_R4(P, rep)
     rule_R5(P, rep)
+    rule_R6(P, rep)
